@@ -134,7 +134,7 @@ def run(chk):
                         'module; additionally the words the grammar language itself reserves are not used as new names',
                         'known findings are identified by (pool name, role, failure signature)']
     taken = {'Item', 'Word', 'Pair', 'key', 'val', 'gap', 'Wrap', 'p', 'tmp', 'Box', 'q', 'it', 'n', 'stars', 'start', 'm', 'xs',
-             'Cnt', 'more', 'Zlast', 't', 'Tab', 'Tuse', 'ZW', 'ZB', 'ZC', 'h', 'z', 'Inv', 'ZI'}
+             'Cnt', 'more', 'Zlast', 't', 'Tab', 'Tuse', 'ZW', 'ZB', 'ZC', 'h', 'z', 'Inv', 'ZI', 'Hold', 'hh'}
     # every public attribute of the package the translator looks constructors up in (classes, helper functions, submodules)
     import sys
     if realrun.REPO not in sys.path:
@@ -159,6 +159,23 @@ def run(chk):
         raise MachineryFailure('cannot obtain generated source (named): %r' % (rec2['build'],))
     idents = source_identifiers(rec['obs'][0]) | source_identifiers(rec2['obs'][0])
     dyn = sorted(n for n in idents if usable(n, taken) and n not in fixed)
+    # private names of the generated module are built as _<prefix>_<name> (_try_Word, _parse_function_12, ...): every
+    # tail of such a name is a name a user could give to a rule; at most two per stem (numbers apart)
+    import re
+    tails, stems = [], {}
+    for ident in sorted(idents):
+        if not ident.startswith('_'):
+            continue
+        parts = ident.lstrip('_').split('_')
+        for i in range(1, len(parts)):
+            cand = '_'.join(parts[i:])
+            stem = re.sub(r'\d+', '#', cand)
+            if usable(cand, taken) and cand not in fixed and cand not in dyn and cand not in tails and stems.get(stem, 0) < 2:
+                stems[stem] = stems.get(stem, 0) + 1
+                tails.append(cand)
+    chk.notes['private_name_tails'] = len(tails)
+    chk.notes['private_name_tails_sample'] = tails[:30]
+    dyn = sorted(set(dyn) | set(tails))
     chk.notes['dynamic_pool'] = len(dyn)
     chk.notes['dynamic_pool_sample'] = dyn[:25]
     cases2 = enumerate_cases(chk, dyn, 'MC_C20(dynamic pool)', dyn=True) if dyn else []
